@@ -233,6 +233,16 @@ Fixpoint jheight (n : jn) : nat :=
   | JVal v => vheight v
   end%nat.
 
+(* nesting depth of a wired tree (without attributes) *)
+Fixpoint wheight (w : wnode) : nat :=
+  match w with
+  | WNoValue _ | WValue _ => 1
+  | WSeq _ ms => S (wheights ms)
+  | WFixed _ _ _ ms | WDelayed _ _ _ ms => S (Nat.max 1 (wheights ms))
+  end
+with wheights (ms : wnodes) : nat :=
+  match ms with WNil => 0 | WCons w r => Nat.max (wheight w) (wheights r) end.
+
 (* ---- a rendering that shows every attribute ------------------------------------------------ *)
 (* render_value unfolds attributes of attributes [k] levels deep.  A descendant search sees
    the whole of a node only when no chain of attributes is cut short: *)
